@@ -3,6 +3,7 @@ package props
 import (
 	"bytes"
 	"fmt"
+	"strings"
 	"sync"
 	"time"
 
@@ -46,7 +47,12 @@ func c20Pristine(w *mon.W) {
 			_ = d.IsValidNow()
 			_ = d.IsValidAt(time.Unix(1<<33, 5))
 		}},
-		{"Policy.String+Meta.String", func(d *delegation.Token, iss *gen.Principal) { _ = d.Policy().String(); _ = d.Meta().String() }},
+		{"Policy.String+Meta.String", func(d *delegation.Token, iss *gen.Principal) {
+			_ = d.Policy().String()
+			_ = d.Meta().String()
+			_ = fmt.Sprint(d.Meta())
+			_ = fmt.Sprintf("%v %+v", d, d.Meta())
+		}},
 		{"container.AddSealed+ToCar", func(d *delegation.Token, iss *gen.Principal) {
 			if b, c, err := d.ToSealed(iss.Priv); err == nil {
 				wr := container.NewWriter()
@@ -59,7 +65,7 @@ func c20Pristine(w *mon.W) {
 		iss, aud := gen.Ed(i), gen.Ed(i+1)
 		pol, _ := policy.Construct(policy.Equal(".a", basicnode.NewInt(int64(i))), policy.Like(".s", "x*"))
 		opts := []delegation.Option{delegation.WithSubject(iss.DID), delegation.WithExpirationIn(time.Hour + 123456789*time.Nanosecond), delegation.WithNotBeforeIn(-time.Hour - 987654321*time.Nanosecond),
-			delegation.WithMeta("zeta", "z"), delegation.WithMeta("alpha", int64(i)), delegation.WithEncryptedMetaString("secret", "s3cr3t", bytes.Repeat([]byte{9}, 32))}
+			delegation.WithMeta("zeta", "z"), delegation.WithMeta("alpha", int64(i)), delegation.WithMeta("blob", bytes.Repeat([]byte{1, 2, 3, 4, 5}, 30)), delegation.WithEncryptedMetaString("secret-long", strings.Repeat("a longer secret, ", 8), bytes.Repeat([]byte{9}, 32)), delegation.WithEncryptedMetaString("secret", "s3cr3t", bytes.Repeat([]byte{9}, 32))}
 		d, err := delegation.New(iss.DID, aud.DID, cmd, pol, opts...)
 		if err != nil {
 			return nil, nil
@@ -69,7 +75,7 @@ func c20Pristine(w *mon.W) {
 	mkInv := func(i int) (*invocation.Token, *gen.Principal) {
 		iss := gen.Ed(i)
 		inv, err := invocation.New(iss.DID, iss.DID, cmd, nil, invocation.WithExpirationIn(time.Hour+123456789*time.Nanosecond), invocation.WithInvokedAtIn(-time.Minute-55555*time.Nanosecond),
-			invocation.WithArgument("zz", 1), invocation.WithArgument("aa", "two"), invocation.WithMeta("m2", 2), invocation.WithMeta("m1", 1))
+			invocation.WithArgument("zz", 1), invocation.WithArgument("aa", "two"), invocation.WithMeta("m2", 2), invocation.WithMeta("m1", 1), invocation.WithMeta("blob", bytes.Repeat([]byte{1, 2, 3, 4, 5}, 30)))
 		if err != nil {
 			return nil, nil
 		}
